@@ -1264,15 +1264,17 @@ impl<'s, X: Item> VecExec<'s, $K, X> {
                 let panic_at = op.f as usize;
                 let mut calls = 0usize;
                 let mut fired = false;
-                let mut seen: Vec<Grp> = Vec::with_capacity(n);
+                // Ownership law of a reduction, whatever its shape (left fold, right fold, tree): every
+                // call consumes two distinct values that are alive — elements not yet handed out, or
+                // results of earlier calls — and its result becomes alive; one value is left at the end.
+                // (In which order the elements are combined is C02's business, not C18's.)
+                let mut alive: Vec<Grp> = all.clone();
                 let mut bad: Option<String> = None;
-                let mut acc: Option<Grp> = None;
                 let (r, _) = {
                     let calls = &mut calls;
                     let fired = &mut fired;
-                    let seen = &mut seen;
+                    let alive = &mut alive;
                     let bad = &mut bad;
-                    let acc = &mut acc;
                     guard(m(OWN_DOOMED), 0, None, move || {
                         <$K as Kind<X>>::v_reduce(v, |a, b| {
                             if tok::should_abandon() {
@@ -1280,18 +1282,15 @@ impl<'s, X: Item> VecExec<'s, $K, X> {
                             }
                             *calls += 1;
                             let (ga, gb) = (a.grp(), b.grp());
-                            match *acc {
-                                None => seen.push(ga),
-                                Some(prev) => {
-                                    if prev != ga && bad.is_none() {
-                                        *bad = Some(format!("call {}: the accumulator handed in is not the value the previous call returned", *calls));
-                                    }
+                            if bad.is_none() {
+                                if ga == gb {
+                                    *bad = Some(format!("call {}: both arguments are the same element (id {})", *calls, ga.first()));
+                                } else if !alive.contains(&ga) {
+                                    *bad = Some(format!("call {}: the closure was handed id {} which had already been consumed", *calls, ga.first()));
+                                } else if !alive.contains(&gb) {
+                                    *bad = Some(format!("call {}: the closure was handed id {} which had already been consumed", *calls, gb.first()));
                                 }
                             }
-                            if (seen.contains(&gb) || ga == gb) && bad.is_none() {
-                                *bad = Some(format!("call {}: the closure was handed id {} a second time", *calls, gb.first()));
-                            }
-                            seen.push(gb);
                             if *calls > 80 {
                                 std::panic::panic_any(Injected);
                             }
@@ -1300,13 +1299,13 @@ impl<'s, X: Item> VecExec<'s, $K, X> {
                                 tok::note(EV_INJECT, 7000 + *calls as u64);
                                 std::panic::panic_any(Injected);
                             }
+                            let gone = if keep_new { ga } else { gb };
+                            alive.retain(|g| *g != gone);
                             if keep_new {
                                 drop(a);
-                                *acc = Some(gb);
                                 b
                             } else {
                                 drop(b);
-                                *acc = Some(ga);
                                 a
                             }
                         })
@@ -1325,13 +1324,9 @@ impl<'s, X: Item> VecExec<'s, $K, X> {
                 }
                 match r {
                     Ok(x) => {
-                        let mut s2 = seen.clone();
-                        s2.sort_by_key(|g| g.first());
-                        let mut want = all.clone();
-                        want.sort_by_key(|g| g.first());
                         let survivor = x.grp();
-                        if s2 != want || calls != n - 1 || Some(survivor) != acc.or(all.first().copied()) {
-                            tok::raise(V5_ORDER, format!("reduce on a {}: {} calls; the closure was not handed each of the {} elements exactly once, or the result is not what the last call returned", <$K as Kind<X>>::NAME, calls, n));
+                        if calls != n - 1 || alive.len() != 1 || alive[0] != survivor {
+                            tok::raise(V5_ORDER, format!("reduce on a {}: {} calls on {} elements; {} values were never handed to the closure, or the result (id {}) is not the value the last call returned", <$K as Kind<X>>::NAME, calls, n, alive.len().saturating_sub(1), survivor.first()));
                             std::mem::forget(x);
                             return true;
                         }
@@ -1670,7 +1665,7 @@ impl<'s, X: Item> VecExec<'s, $K, X> {
                 if op.f > 0 {
                     self.st.fault_cfg[F_OBSERVE_PANIC] += 1;
                 }
-                let mut kind = op.a % 6;
+                let mut kind = op.a % 7;
                 if (kind == 3 || kind == 4) && self.twin.is_none() {
                     kind = 2;
                 }
@@ -1683,7 +1678,7 @@ impl<'s, X: Item> VecExec<'s, $K, X> {
                     }
                 }
                 let twin = self.twin.as_ref().map(|t| &t.0);
-                if op.b > 0 && (kind == 0 || kind == 5) {
+                if op.b > 0 && (kind == 0 || kind == 5 || kind == 6) {
                     self.st.fault_cfg[F_SINK] += 1;
                     set_sink_fail(op.b);
                 }
@@ -1712,10 +1707,16 @@ impl<'s, X: Item> VecExec<'s, $K, X> {
                     4 => {
                         let _ = twin.unwrap() != it;
                     }
-                    _ => {
+                    5 => {
                         use std::fmt::Write;
                         let mut w = NullWriter(0);
                         let _ = write!(w, "{:#?}", it);
+                    }
+                    _ => {
+                        // formatter flags a Debug impl might branch on: width, fill, alignment, precision, sign
+                        use std::fmt::Write;
+                        let mut w = NullWriter(0);
+                        let _ = write!(w, "{:*>+14.2?}", it);
                     }
                 });
                 if fired {
